@@ -196,8 +196,12 @@ fn gen_op(rng: &mut Rng, cfg: &GenCfg, t: &Tree, focus: &[String]) -> Op {
     let key = rng.below(26) as u8;
     // weights
     let sync_w = if cfg.sync_heavy { 9 } else { 3 };
+    // an almost empty tree: favour creation so that short histories are not
+    // spent on error paths only
+    let boost = if v.files.len() < 2 { 4 } else { 1 };
+    let dboost = if v.dirs.is_empty() { 3 } else { 1 };
     let table: Vec<(u32, u8)> = vec![
-        (8, 0),       // WriteAll / create
+        (8 * boost, 0), // WriteAll / create
         (9, 1),       // WriteAt
         (4, 2),       // Append
         (3, 3),       // ReadAt
@@ -210,7 +214,7 @@ fn gen_op(rng: &mut Rng, cfg: &GenCfg, t: &Tree, focus: &[String]) -> Op {
         (sync_w, 10), // SyncDir
         (7, 11),      // Rename
         (5, 12),      // RemoveFile
-        (5, 13),      // CreateDir
+        (5 * dboost, 13), // CreateDir
         (2, 14),      // CreateDirAll
         (3, 15),      // RemoveDir
         (1, 16),      // RemoveDirAll
@@ -408,37 +412,37 @@ pub fn gen_history(rng: &mut Rng, cfg: &GenCfg) -> (Vec<Op>, Rejected) {
         }
         i += 1;
     }
-    let mut t = Tree::new();
+    let mut dm = crate::durable::Durable::new(false, None);
     let mut zt = zones::Tracker::new();
     let mut out: Vec<Op> = vec![];
     let mut rejected = Rejected::new();
     let mut guard = 0;
     while out.len() < cfg.len && guard < cfg.len * 40 {
         guard += 1;
-        let mut op = gen_op(rng, cfg, &t, &focus);
+        let mut op = gen_op(rng, cfg, &dm.v, &focus);
         fix_fe(&mut op);
         if cfg.avoid_zones {
-            if let Some(z) = zt.check(&t, &op) {
+            if let Some(z) = zt.check(&dm.v, &op) {
                 *rejected.entry(z).or_default() += 1;
                 continue;
             }
         }
-        zt.apply(&t, &op);
+        zt.apply(&dm.v, &op);
         if op == Op::Crash {
-            // the generator's tree cannot follow a crash (it has no durable
-            // image); keep generating against the pre-crash tree — ops on
-            // vanished objects just exercise error paths
+            // the generator follows a crash with the pessimistic durable
+            // image (no background sync, no torn writes, `Maybe` entries gone)
+            dm.crash_assume();
         } else {
-            t.apply(&op);
-            t.events.clear();
+            dm.v.apply(&op);
+            dm.absorb();
         }
         out.push(op);
         if cfg.sync_everywhere && out.len() < cfg.len && rng.chance(0.7) {
-            if let Some(s) = gen_sync(rng, cfg, &t) {
-                if !(cfg.avoid_zones && zt.check(&t, &s).is_some()) {
-                    zt.apply(&t, &s);
-                    t.apply(&s);
-                    t.events.clear();
+            if let Some(s) = gen_sync(rng, cfg, &dm.v) {
+                if !(cfg.avoid_zones && zt.check(&dm.v, &s).is_some()) {
+                    zt.apply(&dm.v, &s);
+                    dm.v.apply(&s);
+                    dm.absorb();
                     out.push(s);
                 }
             }
